@@ -950,6 +950,9 @@ def call_ext(it, dotted, args, kwargs):
     # ---------------- numpy / math / cmath scalar functions
     if short in ('sqrt', 'cos', 'sin', 'tan', 'exp', 'log') and mod in ('numpy', 'math', 'cmath', 'np'):
         return _mapnum(lambda x: apply_fn(short, x), args[0])
+    if short == 'hypot' and mod in ('numpy', 'math', 'np') and len(args) == 2:
+        x, y = _num(args[0]), _num(args[1])
+        return apply_fn('sqrt', x * x + y * y)
     if short in ('arccos', 'acos', 'arcsin', 'asin', 'arctan', 'atan') and mod in ('numpy', 'math', 'cmath'):
         fn = {'arccos': 'acos', 'arcsin': 'asin', 'arctan': 'atan'}.get(short, short)
         return _mapnum(lambda x: apply_fn(fn, x), args[0])
@@ -1032,6 +1035,28 @@ def call_ext(it, dotted, args, kwargs):
         return Arr([[Rat.const(1 if i == j else 0) for j in range(n)] for i in range(n)])
     if short == 'array':
         return _to_arr(it, args[0])
+    if short in ('asarray', 'asanyarray', 'atleast_1d') and mod == 'numpy':
+        v = args[0]
+        if isinstance(v, PolyT):
+            raise Undecidable('numpy.%s of a poly1d' % short)
+        if isinstance(v, (list, tuple, Arr)):
+            return _to_arr(it, v)
+        if short == 'atleast_1d':
+            return Arr([_num(v)])
+        raise Undecidable('numpy.%s of a scalar (0-d array)' % short)
+    if short == 'where' and mod == 'numpy' and len(args) == 3:
+        c, x, y = args
+        if not (isinstance(c, Arr) and c.ndim == 1):
+            raise Undecidable('numpy.where on a non 1-D condition')
+        def pick(v, i):
+            if isinstance(v, Arr):
+                if v.ndim != 1 or len(v.d) != len(c.d):
+                    raise Undecidable('numpy.where with broadcasting')
+                return v.d[i]
+            if isinstance(v, (list, tuple)):
+                raise Undecidable('numpy.where with sequences')
+            return _num(v)
+        return Arr([pick(x, i) if it.truth(ci) else pick(y, i) for i, ci in enumerate(c.d)])
     if short == 'matmul':
         return _to_arr(it, args[0]).dot(_to_arr(it, args[1]))
     if short == 'dot' and mod == 'numpy':
